@@ -100,6 +100,7 @@ pub(crate) fn lex(input: &str) -> impl Iterator<Item = (SyntaxKind, &str)> {
     lex_(input, true)
 }
 
+#[cfg_attr(not(test), allow(dead_code))]
 pub(crate) fn lex_inline(input: &str) -> impl Iterator<Item = (SyntaxKind, &str)> {
     lex_(input, false)
 }
